@@ -355,13 +355,6 @@ class AlignAmbiguous(OutOfDomain):
     reason = "ambiguous-alignment"
 
 
-class NoFreeClp(OutOfDomain):
-    """constraints and relations eliminate every clp at some index: no linear sub-problem is left there (the
-    properties speak of full-column-rank matrices with n >= 1 columns; pyglotaran hands the empty matrix to LAPACK)"""
-
-    reason = "no-free-clp-at-an-index"
-
-
 def reference_alignment(axes, tolerance, method):
     """axes: ordered list of (label, axis).  Returns (aligned_axis, mapping label -> list of aligned values).
     Statement read literally: datasets processed in order; a point maps to the nearest already aligned point
@@ -622,8 +615,6 @@ def reference(spec, variant=None, vals=None):
                     mats.append(M)
                     Ms = M * scale
                     rl, Mr, rel = _reduce(spec, vals, labels, Ms, x)
-                    if Mr.shape[1] == 0:
-                        raise NoFreeClp()
                     y = data[lab][:, i]
                     if W is not None:
                         Mr = Mr * W[:, i][:, None]
@@ -687,8 +678,6 @@ def reference(spec, variant=None, vals=None):
                 S = np.concatenate(blocks, axis=0)
                 y = np.concatenate(ys)
                 rl, Sr, rel = _reduce(spec, vals, full_labels, S, x)
-                if Sr.shape[1] == 0:
-                    raise NoFreeClp()
                 # weights apply when any dataset *stacked at this aligned index* supplies one
                 if any(weights[d["label"]] is not None for d, _ in members):
                     w = np.concatenate(ws)
